@@ -1233,8 +1233,9 @@ class ABCPropertyGraph(ABCPropertyGraphConstants):
         ids = self._sliver_tree_ids(sliver)
         for node_id in ids:
             if node_id is None:
-                # reported by the assertions of the individual writers
-                continue
+                # the individual writers require an id: refuse now, before anything is added
+                raise PropertyGraphQueryException(graph_id=self.graph_id, node_id=None,
+                                                  msg="A sliver without node id cannot be added")
             if ids.count(node_id) > 1:
                 raise PropertyGraphQueryException(graph_id=self.graph_id, node_id=node_id,
                                                   msg="Node id is used more than once in the sliver being added")
